@@ -13,6 +13,7 @@ import (
 	"runtime"
 	"sort"
 	"strings"
+	"sync/atomic"
 	"time"
 
 	sentinel "github.com/alibaba/sentinel-golang/api"
@@ -89,13 +90,17 @@ func addr(i int) string { return fmt.Sprintf("10.1.0.%d:80", i) }
 func runCase(idx int, c *caseDesc) {
 	caseNo++
 	res := fmt.Sprintf("c20-%d", caseNo)
+	var over int32
 	rule := &outlier.Rule{Rule: &cb.Rule{Id: res, Resource: res, Strategy: cb.ErrorCount, RetryTimeoutMs: c.Retry, MinRequestAmount: 1, StatIntervalMs: 10000, Threshold: 2, ProbeNum: c.Probe},
 		MaxEjectionPercent: c.Pct, EnableActiveRecovery: c.Active, RecoveryIntervalMs: 4000, RecycleIntervalS: 0, // (both are multiplied in uint32 by the library: larger values wrap around)
-		RecoveryCheckFunc: func(string) bool { return false }}
+		// (the active check answers "still down" for the length of the case and "up" afterwards: a check that never
+		// succeeds is re-armed by the library for ever, and thousands of finished cases would keep their timers firing)
+		RecoveryCheckFunc: func(string) bool { return atomic.LoadInt32(&over) == 1 }}
 	if _, err := outlier.LoadRuleOfResource(res, rule); err != nil {
 		run.Violation("C20/load-error", err.Error(), c)
 		return
 	}
+	defer atomic.StoreInt32(&over, 1)
 	defer outlier.ClearRuleOfResource(res)
 	clk.AddMs(100000)
 	nodes := map[string]*ref.CB{}
